@@ -14,6 +14,15 @@ def peersync(mode, nq, nt, pq=4, pt=12, extra=None):
             "n": {"quick": nq, "thorough": nt}, "procs": {"quick": pq, "thorough": pt}}
 
 CHECKS = {
+    "C01": {
+        "trace_module": "Trace_PeerSync",
+        "mc": [MC_PEERSYNC],
+        "drivers": [peersync("mut", 60, 500, 3, 10, ["maxmut=60"]), peersync("adv", 150, 1000, 1, 3), peersync("honest", 30, 150, 1, 3)],
+        "assumptions": COMMON_ASSUMPTIONS + [
+            "mutations are constructed to be definitely incorrect answers (DESIGN.md 4 C01); the violated attribute is set by construction",
+            "'byte-for-byte unchanged' is checked on the projected trusted state (peer prove states, LAST_STATE, LAST_N_HEADERS) read back from the real objects/RocksDB",
+        ],
+    },
     "C05": {
         "trace_module": "Trace_PeerSync",
         "mc": [MC_PEERSYNC],
